@@ -132,7 +132,7 @@ func runCase(t *testing.T, kd kindDef, e *kenv, k kase) (res result) {
 }
 
 func kinds() []kindDef {
-	return []kindDef{dhcpKind("dhcp4-direct", false), dhcpKind("dhcp4-relayed", true)}
+	return []kindDef{dhcpKind("dhcp4-direct", false), dhcpKind("dhcp4-relayed", true), pppoeServerKind(), teardownKind(), submgrKind()}
 }
 
 type matrixStats struct {
@@ -174,7 +174,9 @@ func runMatrix(t *testing.T, run *report.Run, kd kindDef, envs []*kenv) {
 				}
 				atomic.AddInt64(&st.tx, int64(res.txBefore))
 				mu.Lock()
-				if res.panicked != "" {
+				if strings.HasPrefix(res.panicked, "harness:") {
+					run.HarnessError(strings.Join(k.trace(), " ; ") + ": " + strings.SplitN(res.panicked, "\n", 2)[0])
+				} else if res.panicked != "" {
 					found = append(found, rv{i, report.Violation{Part: part, Kind: "panic", Site: strings.Join(k.Terms, ";"), Detail: res.panicked, Config: k.Cfg, Trace: k.trace()}})
 				}
 				for _, v := range res.viols {
